@@ -12,6 +12,7 @@ import networkx as nx
 
 from .. import AnalysisError, tables
 from ..callgraph import callgraph
+from ..canon import canon
 from ..pm import src, dotted
 from ..q import FA, call_name, guard_facts, is_self_attr, walk_no_nested, const
 from ..resolve import resolver
@@ -71,7 +72,23 @@ def run(ctx):
     cp = ta.find_calls("self.ns.close_pool")
     ck = ta.find_calls("self.ns.checkpoint")
     ctx.ob("R-ORDER", "C13.1", tf, "terminate_run: close the pool, then a forced (non-periodic) checkpoint of the live sampler object", len(cp) == 1 and len(ck) == 1 and ta.dominates(cp[0][0], ck[0][0]) and _non_periodic(ck[0][1]) and ta.on_every_normal_path(ck[0][0]), f"`{src(ck[0][1]) if ck else None}`")
-    ctx.floor("C13.1", 5)
+    # the forced checkpoint the handler asks for is always written: in BaseNestedSampler.checkpoint every `return` before
+    # the pickle is on the periodic path (interval not reached); a forced call that can return early leaves whatever file
+    # an earlier - possibly mid-iteration - periodic checkpoint wrote
+    bck = ctx.fn(tables.BASE + ".checkpoint")
+    bca = FA(bck)
+    dumps_ = [n_ for n_, c_ in bca.find_expr(lambda e_: isinstance(e_, ast.Call) and (call_name(e_) or "").split(".")[-1] in ("safe_file_dump",) or (isinstance(e_, ast.Call) and src(e_.func) == "self.checkpoint_callback"))]
+    ctx.require(len(dumps_) >= 1, "BaseNestedSampler.checkpoint: no pickling call found")
+    n_ret = 0
+    for rn_ in bca.find(lambda s_: isinstance(s_, ast.Return)):
+        if any(bca.dominates(d_, rn_) for d_ in dumps_):
+            continue
+        n_ret += 1
+        facts_ = guard_facts(bca, rn_)
+        periodic_only = any((canon(e_) == "periodic" and t_ is True) or (canon(e_) == "not periodic" and t_ is False) for e_, t_ in facts_)
+        ctx.ob("R-ORDER", "C13.1", bck, "a checkpoint call returns without pickling only on the periodic path (a forced, signal-time checkpoint is always written)", periodic_only, f"`return` under {[(src(e_)[:40], t_) for e_, t_ in facts_]}", node=bca.stmt(rn_))
+    ctx.require(n_ret >= 1, "BaseNestedSampler.checkpoint: the interval test of the periodic path (an early return) was not found")
+    ctx.floor("C13.1", 6)
 
     # ------------------------------------------------------------------
     # C13.2 INS refuses mid-iteration checkpoints
